@@ -44,7 +44,8 @@ def gen(r, tier, i):
     return {'k': r.randint(1, 3), 'nest': r.random() < 0.6, 'deriver': r.random() < 0.4,
             'path': [r.choice(['x', 'y', 'z']) for _ in range(r.randint(0, 3))],
             'ops': ops, 'init_n': r.randint(0, 9),
-            'override': {'target': r.choice(['p0', 's', 'sub.q']), 'via': r.choice(['composer', 'process', 'merge'])},
+            'override': {'target': r.choice(['p0', 's', 'sub.q']), 'via': r.choice(['composer', 'process', 'merge', 'merge']),
+                         'late': r.random() < 0.5},
             'meta_overlap': r.random() < 0.5}
 
 
@@ -283,7 +284,14 @@ def override_case(V, spec, P, St, C, cfg):
         comp = C(dict(cfg, _schema=nested_ov)).generate()
     elif via == 'merge':
         comp = Composite({})
-        comp.merge(composite=C(cfg).generate(), schema_override=nested_ov)
+        if spec['override'].get('late'):
+            # multi-step: the composite has already been loaded into a store once (its processes have
+            # been placed and asked for their schema) when the override is merged
+            comp.merge(composite=C(cfg).generate())
+            comp.generate_store({})
+            comp.merge(schema_override=nested_ov)
+        else:
+            comp.merge(composite=C(cfg).generate(), schema_override=nested_ov)
     else:
         comp = C(cfg).generate()
         # a process-level override: replace the target by an instance built with _schema
